@@ -2,6 +2,7 @@
 import r_drop
 import r_replace
 import r_keep
+import r_guard
 
 EXPLANATION = (
     "Typestate over path enumeration: for every function that can return something else than the wrapper it was given "
@@ -18,4 +19,5 @@ ASSUMPTIONS = ["full_moon attaches every comment to exactly one token as leading
 
 def run(ctx):
     return [r_drop.rule_drop(ctx, "C03"), r_replace.rule_replace(ctx, "C03"),
-            r_keep.rule_keep_format_token(ctx, "C03"), r_keep.rule_keep_load(ctx, "C03"), r_keep.rule_keep_eof(ctx, "C03")]
+            r_keep.rule_keep_format_token(ctx, "C03"), r_keep.rule_keep_load(ctx, "C03"), r_keep.rule_keep_eof(ctx, "C03"),
+            r_guard.rule_guard(ctx, "C03")]
